@@ -58,6 +58,11 @@ TEXT_GRID = ["1e1", "4.5e1", "1E0", "-1.2e1", "+5", ".5", "5.", "0e0", "1e-3", "
              "+-5", "++5", "-+5", "+-0", "++1e1", "+ 5", "+.5", "-.5e1", "5-", "5+", "+5+", "0-1", "1e1e1", "1..", "..1", "+inf", "+nan", "-nan", "1e-", "5.e0"]
 
 
+# long malformed texts with a 2-, 3- or 4-byte character covering each byte offset 0..40 (candidates added to a long-text counterexample)
+LONG_TEXT_GRID = ["1" * k + ch + "0" * (41 - k) for k in range(0, 41) for ch in ("\u00b0", "\u2032", "\U0001F54B")] + \
+                 ["21\u00b0 25\u2032 21\u2033 N, 39\u00b0 49\u2032 34\u2033 E", "4" * 60, "\u00b0" * 30]
+
+
 def text_judge(tyname, lo, hi, texts):
     """Native: <T as FromStr>::from_str(text) against std's own f64 parser (reported by the replay binary) + range."""
     cases = [{"api": "parse", "type": tyname, "text": t} for t in dict.fromkeys(texts)]
@@ -103,12 +108,18 @@ def concretise_factory(rep):
                     vals.append(f64_of(raw) if k == 0 else struct.unpack("<q", raw)[0] if k == 1 else struct.unpack("<Q", raw)[0])
                 elif route == "tx":
                     vals.extend(f64_of(x) for x in v if len(x) == 8)
+                elif route == "tl":
+                    bs = [x[0] for x in v[:40] if len(x) == 1]
+                    n = struct.unpack("<Q", bytes(v[40]))[0] if len(v) > 40 and len(v[40]) == 8 else len(bs)
+                    texts.append(bytes(bs[:n]).decode("utf-8", "replace"))
                 elif route == "ts":
                     bs = [x[0] for x in v[:8] if len(x) == 1]
                     n = struct.unpack("<Q", bytes(v[8]))[0] if len(v) > 8 and len(v[8]) == 8 else len(bs)
                     texts.append(bytes(bs[:n]).decode("ascii", "replace"))
             except Exception:
                 pass
+        if route == "tl":
+            return text_judge(tyname, lo, hi, texts + LONG_TEXT_GRID)
         if route == "ts":
             # the solver abstracts the parsed VALUE (any f64); make its strings concrete with in-range numerals: same non-numeric skeleton
             import re as _re
@@ -146,8 +157,8 @@ def run(rep):
     rep.functions.update(["<T as TryFrom<f64>>::try_from (Bounded::try_from, RangeInclusive::contains) for 6 types",
                           "Parsable::parse / FromStr for Gmt, Latitude, Longitude, Elevation",
                           "derive(Deserialize) impls of the 6 newtypes (serde-generated visitors)"])
-    rep.bounds = {"f64 input": "all 2^64 bit patterns", "json integer literals": "all i64 and all u64", "unwind": "none needed (loop-free) except the symbolic-text harnesses: 11",
-                  "symbolic text": "every printable-ASCII string of length 0..8"}
+    rep.bounds = {"f64 input": "all 2^64 bit patterns", "json integer literals": "all i64 and all u64", "unwind": "none needed (loop-free) except the symbolic-text harnesses: 11 (c18_ts_*), 42 (c18_tl_*)",
+                  "symbolic text": "every printable-ASCII string of length 0..8 (grammar model of the number parser); every string of <= 40 bytes made of ASCII, 2-byte and 3-byte (U+1000..U+CFFF) UTF-8 characters (number parser = any outcome)"}
     rep.assumptions += [
         "symbolic-text harnesses (c18_ts_*): <f64 as FromStr>::from_str is replaced by a grammar model (Ok(arbitrary f64) exactly for "
         "[sign](inf|nan|digits[.digits][e[sign]digits]) strings, Err otherwise); a counterexample string is replayed natively against std's real parser",
